@@ -719,7 +719,16 @@ class Store:
         raise Unsupported("slice assignment from %r" % (src,))
 
     def apply_aug_scalar(self, key, box, aug, val):
-        raise Unsupported("augmented scalar slice assignment")
+        """a[box] op= scalar: every cell of the box keeps its expression, combined with the scalar"""
+        opn = {"Add": lambda e: e + val, "Sub": lambda e: e - val, "Mult": lambda e: e * val, "Div": lambda e: e / val}.get(aug)
+        if opn is None:
+            raise Unsupported("augmented scalar slice assignment with operator %s" % aug)
+        items = []
+        for p in self.pieces(key):
+            inter = p.box.intersect(box)
+            if not inter.is_empty():
+                items.append((inter, opn(PW.of(p.expr))))
+        self.write_many(key, items)
 
     def assign_from_array(self, vd, dst, src, op):
         vs = ViewInfo(src)
